@@ -52,6 +52,19 @@ type Inv struct {
 // value, into inequalities and disequalities.
 func (fa *FA) condFacts(cond ssa.Value, truth bool, out *edgeFacts) {
 	switch c := cond.(type) {
+	case *ssa.Phi:
+		// the value go/ssa builds for "a && b" / "a || b" outside an if condition (a switch case, an
+		// assignment): with the given truth value all but one incoming constant are excluded, and the
+		// tests on the way to the remaining edge held
+		for _, dc := range condImplies(c, truth, 0) {
+			if dc.Cond == ssa.Value(c) {
+				continue
+			}
+			if _, again := dc.Cond.(*ssa.Phi); again {
+				continue
+			}
+			fa.condFacts(dc.Cond, dc.Truth, out)
+		}
 	case *ssa.UnOp:
 		if c.Op == token.NOT {
 			fa.condFacts(c.X, !truth, out)
